@@ -8,6 +8,9 @@ MC_PLAN = {"module": "MC_Planners.tla", "cfg": "MC_Planners.cfg", "cfg_quick": "
 MC_SCR = {"module": "MC_Scratch.tla", "cfg": "MC_Scratch.cfg", "cfg_quick": "MC_Scratch_quick.cfg", "args": ["-maxSetSize", "30000000"], "timeout": 1200}
 MC_EXEC = {"module": "MC_Exec.tla", "cfg": "MC_Exec.cfg", "cfg_quick": "MC_Exec_quick.cfg", "timeout": 2400, "xss": "1g"}
 MC_DF = {"module": "MC_Dataflow.tla", "cfg": "MC_Dataflow.cfg", "timeout": 900}
+# planned trees executed by the algorithm models over GF(P)[i]: a few lengths in quick, every n = 2..64 in thorough
+MC_EXECPLAN = [{"module": "MC_ExecPlan.tla", "cfg": "execplan/MC_ExecPlan_%d.cfg" % n, "xss": "1g", "timeout": 1800,
+                "thorough_only": n not in (12, 30, 37, 45)} for n in range(2, 65)]
 MC_THR = {"module": "Threads.tla", "cfg": "MC_Threads3.cfg", "timeout": 600}
 
 APA_LOOP = [{"module": "CallLoop.tla", "init": "Init", "inv": "IndInv", "length": 0},
@@ -20,7 +23,7 @@ NT_PLAN = "a case is non-trivial when n >= 2 (the plan is not the trivial length
 
 PROPS = {
     "C01": {
-        "driver": "c01", "level": "model_checking", "mc": [MC_LAYER, MC_EXEC],
+        "driver": "c01", "level": "model_checking", "mc": [MC_LAYER, MC_EXEC] + MC_EXECPLAN,
         "rule": "every (planner kind, f32/f64, n, direction) for n = 1..N plus structured lengths is planned on the real library; each is called "
                 "through all four entry points on a dense vector (error against the double-double reference DFT, judged by TLC against Tol) and on unit "
                 "impulses (whole basis for small n; TLC checks the integer phase identity phase[k] = -+j*k mod n); " + NT_PLAN,
